@@ -1374,6 +1374,19 @@ fn stall_sites(f: Family) -> Vec<(u32, u32)> {
                 (site::GMD_LOADED_PTR, p),
             ]);
         }
+        Family::NoReceiver => {
+            // a leaving receiver pauses inside its removal while the producers keep sending
+            for _ in 0..3 {
+                v.extend(vec![
+                    (site::RR_LOADED, c),
+                    (site::RR_BEFORE_CAS, c),
+                    (site::RR_PUBLISHED, c),
+                    (site::RR_RETIRED, c),
+                    (site::RX_UNSUB_DEC, c),
+                    (site::RX_UNSUB_REMOVED, c),
+                ]);
+            }
+        }
         Family::HandleChurn => {
             v.extend(vec![
                 (site::TX_CLONE_MARKED, p),
@@ -1440,6 +1453,9 @@ fn rendezvous_pairs(f: Family) -> Vec<(u32, u32, u32)> {
         }
         Family::RemoveStream | Family::NoReceiver => {
             for _ in 0..2 {
+                // two leaving streams that both work from the same stream list
+                v.push((site::RR_LOADED, c, site::RR_LOADED));
+                v.push((site::RR_BEFORE_CAS, c, site::RR_LOADED));
                 v.push((site::GMD_LOADED_PTR, p, site::RR_PUBLISHED));
                 v.push((site::GMD_BETWEEN_READERS, p, site::RR_PUBLISHED));
                 v.push((site::GMD_BETWEEN_READERS, p, site::RR_RETIRED));
